@@ -20,7 +20,7 @@ from .sym import Poly
 from .spline import Rat
 from .kerneldef import Extractor, Unsupported
 from .report import Finding
-from .plscheck import (Tail, NotUnderstood, report_partial, exec_paths, vdot, vsame, msame, vshow, mshow, vscale, expand, ONE, ZERO, N, rel, settled)
+from .plscheck import (Tail, NotUnderstood, report_partial, report_thresholds, clamps, exec_paths, vdot, vsame, msame, vshow, mshow, vscale, expand, ONE, ZERO, N, rel, settled)
 
 
 def _alloc_sizes(f, tl):
@@ -132,6 +132,7 @@ def component(chk, prog):
             probs.append(('eigenvalue', 'the eigenvalue stored is %s, not the squared norm t\'t of the last (or last but one) score' %
                           ('; '.join('%s%s = %r' % (c[0], c[1], c[2]) for c in ev)[:200] or 'missing')))
         report_partial(chk, R, f, ex_, 'when the iteration stops')
+        report_thresholds(chk, R, f, ex_)
         if not probs:
             chk.instance(R, '%s PCA (path %s): p\'p = 1, t = E p, scores[:, pc] = t, loadings[:, pc] = p, E -= t p\', %s%s = t\'t' %
                          (f.unit.where(loop), path, okev[0][0], okev[0][1]))
@@ -479,6 +480,7 @@ def back_transform(chk, prog):
 
 
 def run(chk, prog):
+    clamps(chk, prog, 'PCA.clamp', ('PCA', 'PCAScorePredictor', 'PCAIndVarPredictor'))
     for r_ in ('PCA.component', 'PCA.reset'):
         chk.rule(r_, '')
     En = component(chk, prog)
